@@ -231,7 +231,7 @@ func parseVersion(reader hashing.HashingReaderWrapper, version int) (int, error)
 	if err != nil {
 		return 0, err
 	}
-	version = int(readUint8 + 1)
+	version = int(readUint8) + 1
 	return version, nil
 }
 
